@@ -71,6 +71,7 @@ pub fn run(ctx: &Ctx) -> Report {
                 rep.add("states", v["states"].as_u64().unwrap_or(0));
                 rep.add("transitions", v["transitions"].as_u64().unwrap_or(0));
                 rep.add("traces_validated_against_impl", v["replays"].as_u64().unwrap_or(0));
+                rep.add("schedules_executed", v["schedules_executed"].as_u64().unwrap_or(0));
                 rep.set("background_rotation_build", v.clone());
             }
             if v["kind"] == "violation" {
@@ -100,9 +101,19 @@ pub fn child_bg() -> i32 {
     let mut rep = Report::new("model_checking");
     let ws: Vec<World> = worlds(Tier::Quick).into_iter().filter(|w| matches!(w.roller, RollerK::Fixed { .. })).collect();
     run_worlds(&ctx, &mut rep, &ws, 4);
+    // the roller's own rotation threads under the scheduler (spawn, mutex and condition variable are shimmed):
+    // every record rolls, so a rotation is still in the background when the next one is requested
+    let fw = |count: u32, ext: &'static str| RollerK::Fixed { base: 0, count, ext };
+    let mk = |trig: Trig, roller: RollerK| World { append: true, trig, roller, pre: None, sizes: vec![], multibyte: false, restart: false };
+    let hs = vec![
+        (RSched { world: mk(Trig::Size(0), fw(6, "")), threads: 1, per_thread: 3, size: 24, chunks: 1 }, 2usize),
+        (RSched { world: mk(Trig::Size(0), fw(6, "")), threads: 2, per_thread: 2, size: 24, chunks: 1 }, 1),
+        (RSched { world: mk(Trig::Size(30), fw(6, ".gz")), threads: 2, per_thread: 2, size: 24, chunks: 2 }, 1),
+    ];
+    run_scheds(&ctx, &mut rep, &hs);
     for v in rep.violations() {
         println!("{}", serde_json::json!({"kind": "violation", "sig": v.signature, "detail": v.detail, "case": v.replay}));
     }
-    println!("{}", serde_json::json!({"kind": "stat", "feature_background_rotation": cfg!(feature = "background_rotation"), "worlds": ws.len(), "states": rep.get("states"), "transitions": rep.get("transitions"), "replays": rep.get("traces_validated_against_impl")}));
+    println!("{}", serde_json::json!({"kind": "stat", "feature_background_rotation": cfg!(feature = "background_rotation"), "worlds": ws.len(), "states": rep.get("states"), "transitions": rep.get("transitions"), "replays": rep.get("traces_validated_against_impl"), "schedules_executed": rep.get("schedules_executed"), "distinct_schedule_outcomes": rep.get("distinct_schedule_outcomes"), "schedule_explorations": rep.coverage.get("schedule_explorations")}));
     0
 }
